@@ -27,11 +27,23 @@ type c08Helper struct {
 	call   func(it ap.Item) (interface{}, error)
 }
 
+// c08Inside, when set, runs inside the callback of the On* helpers with the view; what it returns is what the callback returns.
+var c08Inside func(view interface{}) error
+
 func c08Capture[T any](on func(ap.Item, func(*T) error) error) func(ap.Item) (interface{}, error) {
 	return func(it ap.Item) (interface{}, error) {
 		var got *T
 		called := false
-		err := on(it, func(p *T) error { got, called = p, true; return nil })
+		err := on(it, func(p *T) error {
+			got, called = p, true
+			if c08Inside != nil {
+				return c08Inside(p)
+			}
+			return nil
+		})
+		if c08Inside != nil && called {
+			return got, nil // the callback's own error is not a refusal
+		}
 		if err != nil || !called {
 			return nil, fmt.Errorf("refused: %v (callback invoked: %v)", err, called)
 		}
@@ -298,6 +310,46 @@ func c08Run(c c08Cell, values int) (ds []keyed, info string) {
 				view.Field(i).Set(marker.Field(i))
 				if got := sp.Elem().FieldByIndex(sf.Index).Interface(); !reflect.DeepEqual(got, marker.Field(i).Interface()) {
 					ds = append(ds, keyed{key("write:" + vf.Name), fmt.Sprintf("after writing view.%s the original's %s is %s", vf.Name, sf.Name, clipStr(vocab.Dump(got), 150))})
+				}
+			}
+		}
+		// (b') the same writes made inside the callback, which then fails: the helper reports the failure, it does not undo (or postpone)
+		// what was written through the view - the original holds it while the callback runs and after the helper returned
+		if c.form == "ptr" && strings.HasPrefix(c.h.name, "On") && len(ds) == 0 {
+			sp2 := c08Populate(c.src, k)
+			marker := c08Populate(vt, k+70).Elem()
+			var during []string
+			c08Inside = func(v interface{}) error {
+				view := reflect.ValueOf(v).Elem()
+				for i := 0; i < vt.NumField(); i++ {
+					vf := vt.Field(i)
+					sf, ok := c08SourceField(vt, vf, c.src)
+					if !ok || vf.Name == "Type" {
+						continue
+					}
+					view.Field(i).Set(marker.Field(i))
+					if got := sp2.Elem().FieldByIndex(sf.Index).Interface(); !reflect.DeepEqual(got, marker.Field(i).Interface()) {
+						during = append(during, vf.Name)
+					}
+				}
+				return fmt.Errorf("the callback failed after writing")
+			}
+			pi := evSafe(func() { _, _ = c.h.call(sp2.Interface().(ap.Item)) })
+			c08Inside = nil
+			if pi != nil {
+				return []keyed{{key("panic@" + pi.Frame), pi.Value}}, "panic"
+			}
+			for _, n := range during {
+				ds = append(ds, keyed{key("write-inside:" + n), fmt.Sprintf("view.%s written inside the callback is not seen by the original while the callback runs", n)})
+			}
+			for i := 0; i < vt.NumField(); i++ {
+				vf := vt.Field(i)
+				sf, ok := c08SourceField(vt, vf, c.src)
+				if !ok || vf.Name == "Type" {
+					continue
+				}
+				if got := sp2.Elem().FieldByIndex(sf.Index).Interface(); !reflect.DeepEqual(got, marker.Field(i).Interface()) {
+					ds = append(ds, keyed{key("write-then-error:" + vf.Name), fmt.Sprintf("view.%s was written inside a callback that then returned an error; afterwards the original's %s is %s", vf.Name, sf.Name, clipStr(vocab.Dump(got), 150))})
 				}
 			}
 		}
